@@ -8,6 +8,7 @@ import (
 	"io"
 	"os"
 	"path/filepath"
+	"regexp"
 	"sync/atomic"
 	"time"
 
@@ -15,6 +16,16 @@ import (
 )
 
 var memCounter atomic.Int64
+
+var tmpName = regexp.MustCompile(`storesim-[a-z]+-[0-9-]+`)
+
+// errText renders an error for violation messages without the per-run temp directory / database names.
+func errText(err error) string {
+	if err == nil {
+		return "<nil>"
+	}
+	return tmpName.ReplaceAllString(err.Error(), "storesim-X")
+}
 
 // loc is where a store lives: a named in-memory database or a file in a per-run temp directory.
 type loc struct {
